@@ -449,6 +449,12 @@ def iter_next(ex, itv):
         c = Cell(clo, 'map-closure')
         res = call_closure(ex, clo, [Ref(c, (), True), Agg('tuple', '', None, (item.fields[0],))])
         return Native('Map', (inner2, c.v)), some(res)
+    if isinstance(itv, Native) and itv.rty == 'Take':
+        inner, n = itv.state
+        if n <= 0:
+            return itv, NONE
+        inner2, item = iter_next(ex, inner)
+        return Native('Take', (inner2, n - 1), itv.ident), item
     if isinstance(itv, Native) and itv.rty == 'Flatten':
         # flatten over an iterator of Options (by reference or by value): None entries are skipped
         inner = itv.state
@@ -498,6 +504,39 @@ def into_iter(ex, args, callee):
         if isinstance(inner, Vec):
             return slice_iter(ex, [v], callee)
     raise Unsupported('into_iter of %r' % (v,))
+
+
+@stub('<* as Iterator>::take')
+def iter_take(ex, args, callee):
+    n = args[1].concrete() if isinstance(args[1], Int) else None
+    if n is None:
+        raise Unsupported('take() with a symbolic count')
+    return Native('Take', (args[0], n), fresh_id())
+
+
+@stub('slice::sort_by_key', 'slice::sort_by_cached_key')
+def slice_sort_by_key(ex, args, callee):
+    """Stable sort by a key the closure computes; supported when every key is concrete (bool / small int)."""
+    r = args[0]
+    v = ex.load(r)
+    if not isinstance(v, Vec):
+        raise Unsupported('sort_by_key on %r' % (v,))
+    keyed = []
+    for i, e in enumerate(v.elems):
+        k = call_callable(ex, args[1], [Ref(r.cell, r.path + (i,), False)])
+        if isinstance(k, Bool):
+            t = z3.simplify(k.t)
+            if not (z3.is_true(t) or z3.is_false(t)):
+                raise Unsupported('sort_by_key with a symbolic key')
+            kv = 1 if z3.is_true(t) else 0
+        elif isinstance(k, Int) and k.concrete() is not None:
+            kv = k.concrete()
+        else:
+            raise Unsupported('sort_by_key with key %r' % (k,))
+        keyed.append((kv, i, e))
+    keyed.sort(key=lambda x: (x[0], x[1]))
+    ex.store(r, Vec(tuple(e for _, _, e in keyed), v.ety))
+    return UNIT
 
 
 @stub('<* as Iterator>::flatten')
